@@ -33,8 +33,10 @@ static Alphabet make_alphabet(int vm_flags, bool th) {
 	A.cache_jit_variants = (vm_flags & RANDOMX_FLAG_FULL_MEM) != 0;
 	return A;
 }
-static std::vector<Op> setup_ops(const Alphabet& A) {
+// root 0: one cache + VM.  root 1 ("start from non-initial states too"): a second live cache holding another key.
+static std::vector<Op> setup_ops(const Alphabet& A, int root = 0) {
 	std::vector<Op> s = { { ALLOC_CACHE, 0, 0 }, { INIT_CACHE, 0, 1 } };
+	if (root == 1) { s.push_back({ ALLOC_CACHE, 1, 0 }); s.push_back({ INIT_CACHE, 1, 0 }); }
 	if (A.full()) { s.push_back({ ALLOC_DS, 0, 0 }); s.push_back({ INIT_DS, 0, 0 }); }
 	s.push_back({ CREATE_VM, 0, 0 });
 	return s;
@@ -59,29 +61,39 @@ int main(int argc, char** argv) {
 	}
 
 	std::vector<int> flagsets;
-	for (auto& fs : rxh::vm_flagsets()) { if (th) flagsets.push_back(fs.flags); else if (!strcmp(fs.name, "int-soft-light") || !strcmp(fs.name, "jit-hard-light") || !strcmp(fs.name, "sec-soft-light") || !strcmp(fs.name, "jit-soft-fast") || !strcmp(fs.name, "int-hard-fast")) flagsets.push_back(fs.flags); }
+	for (auto& fs : rxh::vm_flagsets()) { if (th) flagsets.push_back(fs.flags); else if (!strcmp(fs.name, "int-soft-light") || !strcmp(fs.name, "jit-hard-light") || !strcmp(fs.name, "sec-soft-light") || !strcmp(fs.name, "jit-soft-fast")) flagsets.push_back(fs.flags); }
 #ifdef RX_NO_ENVALLOC
 	const int depth = atoi(args.get("depth", th ? "5" : "4").c_str());   // sanitizer build: forks are slower, one level less
 #else
 	const int depth = atoi(args.get("depth", th ? "6" : "5").c_str());
 #endif
-	struct Job { int flags, env, depth; bool dedup; };
+	struct Job { int flags, env, depth; bool dedup; int root; };
 	std::vector<Job> jobs;
-	for (int f : flagsets) for (int e = 0; e < nenv; ++e) jobs.push_back({ f, e, depth, true });
-	for (int f : flagsets) jobs.push_back({ f, 0, std::min(depth, 3), false });   // same search without state merging, depth 3: must give the same verdict
-
+	if (th) {
+		for (int f : flagsets) for (int e = 0; e < nenv; ++e) { jobs.push_back({ f, e, depth, true, 0 }); jobs.push_back({ f, e, depth, true, 1 }); }
+		for (int f : flagsets) jobs.push_back({ f, 0, std::min(depth, 3), false, 0 });
+	} else {   // quick: at most 16 explorations (one wave on 16 cores)
+		for (int f : flagsets) { jobs.push_back({ f, 0, depth, true, 0 }); if (nenv > 1) jobs.push_back({ f, 2, depth, true, 0 }); jobs.push_back({ f, 0, depth, true, 1 }); }   // reuse-large-blocks, fresh; second root: two live caches with different keys
+		if (nenv > 1) jobs.push_back({ flagsets[0], 1, depth, true, 0 });                                                                  // reuse-all on the first flag set
+		for (size_t i = 0; i < 2 && i < flagsets.size(); ++i) jobs.push_back({ flagsets[i], 0, std::min(depth, 3), false, 0 });   // no state merging, depth 3: must give the same verdict
+	}
 	vf::Result total = vf::run_shards(args, (int)jobs.size(), [&](int shard) {
 		vf::Result R; const Job& j = jobs[shard];
 		Alphabet A = make_alphabet(j.flags, th); set_env(j.env); dedup = j.dedup;
 		explore_init();   // table private to this exploration and its descendants
 		W.A = &A; compute_expected(W); OPS = W.alphabet_ops();
-		for (auto& o : setup_ops(A)) { if (!W.enabled(o) || !W.apply(o)) { vf::Violation v; v.key = "c03:setup"; v.what = "setup operation " + op_str(o) + " failed: " + W.problem; v.replay = vf::Json::obj(); R.viol.push_back(v); return R; } H.push_back(o); }
-		visit(W.digest(), j.depth); explore(j.depth);
+		for (auto& o : setup_ops(A, j.root)) { if (!W.enabled(o) || !W.apply(o)) { vf::Violation v; v.key = "c03:setup"; v.what = "setup operation " + op_str(o) + " failed: " + W.problem; v.replay = vf::Json::obj(); R.viol.push_back(v); return R; } H.push_back(o); }
+		// iterative deepening: the first counterexample found is a shortest one; counters are those of the deepest (last) iteration
+		for (int d = 1; d <= j.depth; ++d) {
+			memset(SH, 0, sizeof(Shared) + TAB * sizeof(Shared::E));
+			visit(W.digest(), d); explore(d);
+			if (SH->nviol) break;
+		}
 		std::string cfg; for (auto& fs : rxh::vm_flagsets()) if (fs.flags == j.flags) cfg = fs.name;
 		R.n["states"] = SH->states; R.n["transitions"] = SH->transitions; R.n["hashes_checked"] = SH->hashes; R.n["merged_on_digest"] = SH->dedup_hits; R.n["explorations"] = 1;
 		R.mx["history_length"] = SH->max_depth_reached;
 		if (!j.dedup) { R.n["states_unmerged_runs"] = SH->states; R.n["states"] = 0; R.n["transitions_unmerged_runs"] = SH->transitions; R.n["transitions"] = 0; }
-		R.tags.insert(cfg + "|" + ENVS[j.env].name + (j.dedup ? "" : "|no-merge") + "|depth " + std::to_string(j.depth) + "|states " + std::to_string(SH->states));
+		R.tags.insert(cfg + "|" + ENVS[j.env].name + (j.root ? "|root2" : "") + (j.dedup ? "" : "|no-merge") + "|depth " + std::to_string(j.depth) + "|states " + std::to_string(SH->states));
 		for (uint64_t i = 0; i < std::min<uint64_t>(SH->nviol, 8); ++i) {
 			auto& sv = SH->viol[i]; std::vector<Op> h; for (int k = 0; k < sv.hlen; ++k) h.push_back(Op{ (uint8_t)(sv.h[k] & 255), (uint8_t)((sv.h[k] >> 8) & 255), (uint8_t)((sv.h[k] >> 16) & 255) });
 			vf::Violation v; const Op& last = h.back();
